@@ -192,6 +192,8 @@ def run_history(h):
            "init": hidden_state(), "events": [], "job": h}
     d0 = ["%s=%s/%s" % (name, A.deep_repr(f.__defaults__), A.deep_repr(f.__kwdefaults__)) for name, f in PUBLIC]
     lazy = {}
+    shared = {}          # objects REUSED across the calls of this session: rasters ("share") and kernel arrays ("shared_kernel")
+    deferred = []        # (event, lazy result, inputs): Dask results built now and computed at the end of the session
     for c in h["calls"]:
         entry = CAT[c["f"]]
         # parameters: an explicit dict ("params", the one-parameter pairs of C11) or a catalogue variant
@@ -202,14 +204,37 @@ def run_history(h):
                 import numba
                 numba.set_num_threads(int(c["set_threads"]))
             hw = c.get("hw") or [A.H, A.W]
-            ins = A.build_inputs(entry, c.get("dtype", "float64"), c.get("layout", "C"), c.get("backend", "numpy"), c.get("seed", 0),
-                                 h=hw[0], w=hw[1], p=p, finite=bool(c.get("finite")), coordscale=c.get("coordscale", 1))
+            skey = None
+            if c.get("share"):
+                # the SAME DataArray objects are passed to every call of the session that names this share id
+                skey = (c["share"], c["f"] if c.get("share_per_function") else "", c.get("backend", "numpy"), c.get("dtype"),
+                        len(entry["ins"]), tuple(k for _r, k, _o in entry["ins"]), p.get("_kind"))
+            if skey is not None and skey in shared:
+                ins = shared[skey]
+            else:
+                ins = A.build_inputs(entry, c.get("dtype", "float64"), c.get("layout", "C"), c.get("backend", "numpy"),
+                                     c.get("seed", 0), h=hw[0], w=hw[1], p=p, finite=bool(c.get("finite")),
+                                     coordscale=c.get("coordscale", 1), attrs_family=int(c.get("attrs_family", 0)))
+                if skey is not None:
+                    shared[skey] = ins
+            pp = A.public(p)
+            if c.get("shared_kernel"):
+                # one float kernel array built once (by the library's own constructor) and handed to every consumer
+                kid = c["shared_kernel"]["id"]
+                if kid not in shared:
+                    ctor, cargs = c["shared_kernel"]["ctor"]
+                    shared[kid] = getattr(MODS["convolution"], ctor)(*cargs)
+                pp = dict(pp, kernel=shared[kid])
             fn = getattr(MODS[entry["mod"]], entry["attr"])
-            args, kwargs = entry["kw"](A.public(p), [x for _r, x, _m in ins])
+            args, kwargs = entry["kw"](pp, [x for _r, x, _m in ins])
             with warnings.catch_warnings():
                 warnings.simplefilter("ignore")
                 res = fn(*args, **kwargs)
-                ev["digest"] = digest_result(res, ins)
+                if c.get("defer") and isinstance(res, xr.DataArray) and hasattr(res.data, "compute"):
+                    deferred.append((ev, res, ins))          # digested when the session ends
+                    ev["deferred"] = True
+                else:
+                    ev["digest"] = digest_result(res, ins)
                 if c.get("keep_lazy") and isinstance(res, xr.DataArray) and hasattr(res.data, "compute"):
                     lazy[c["c"]] = res
                 if c.get("joint"):
@@ -237,6 +262,12 @@ def run_history(h):
         ev.update(hidden_state())
         ev["defaults_changed_in"] = changed_defaults(d0)[:5]
         out["events"].append(ev)
+    for ev, res, ins in deferred:
+        try:
+            ev["digest"] = digest_result(res, ins)
+        except Exception as ex:
+            ev["raised"] = True
+            ev["err"] = "%s: %s" % (type(ex).__name__, str(ex)[:300])
     import resource
     ru = resource.getrusage(resource.RUSAGE_SELF)
     out["cpu_s"] = round(ru.ru_utime + ru.ru_stime, 1)      # includes the import of the library
